@@ -52,6 +52,17 @@ type Scenario struct {
 // P = Q + "." + R, a Qual(Q, R + "." + name) for the names the body uses with P. It returns the function
 // that restores the harness' switches.
 func (sc *Scenario) prelude() func() {
+	// other Files of the same process whose renders failed just before (the writer refused the bytes; the
+	// formatter rejected the source): nothing of them shows in this scenario's File
+	func() {
+		defer func() { _ = recover() }()
+		d := jen.NewFile("zzfailed")
+		d.Var().Id("ZZFAILEDFILE").Op("=").Qual("failed.example/util", "ZZFailed").Call()
+		_ = d.Render(failingWriter{})
+		d2 := jen.NewFile("zzfailed2")
+		d2.Var().Id("ZZFAILEDFILE2").Op("=").Qual("failed.example/other/util", "ZZFailed2").Op(")")
+		_ = d2.Render(&bytes.Buffer{})
+	}()
 	for _, n := range sc.File.Body {
 		recipe.Walk(n, func(x *recipe.Node) {
 			if x == nil {
